@@ -23,7 +23,11 @@ RULE = ("generated modules: 2-7 Structure classes (annotation and assignment sty
         "classes, Partial/Omit/Pick/Extend/AllFieldsRequired bases, ImmutableStructure; _required/_optional/"
         "_additional_properties/_ignore_none/_immutable written or not, incl. chains where a base sets all flags and 1-3 subclasses restate nothing; `import datetime/decimal` with attribute-access field types; typing.Optional and AnyOf/OneOf/AllOf[X, None] fields, defaults, "
         "Constants, nested collections, enum/reference fields, EVERY Field class exported by the working tree (enumerated from typedpy, typedpy.fields, typedpy.extfields; each once required, once in every non-required form: _required without it, _optional, _required=[], Partial/Omit/Pick/Extend/subclass derived, and mixed into the random stream), overriding of inherited fields, custom __init__), "
-        "enums, plain classes, dataclasses, functions, module constants; additional_properties_default in "
+        "enums, plain classes, dataclasses, functions, module constants; module-level functions, methods (Structure / plain / "
+        "dataclass / staticmethod / classmethod) and user-written __init__ (Structure / plain / dataclass) over the product "
+        "parameter layout (positional-only, positional, *args, keyword-only after bare * and after *args, **kw, all mixed) x "
+        "default kind (none, literal, None, class, lambda, named function, functools.partial, callable instance, mutable "
+        "literal), each compared by name and kind with inspect.signature; additional_properties_default in "
         "{True, False}; every module through the real create_stub_for_file, ast.parse, parameter extraction; "
         "byte-identity under 1-2 other PYTHONHASHSEEDs in fresh interpreters; a case is non-trivial if a class has "
         ">= 2 own fields or a non-trivial base; distinct by sha256 of the canonical case")
@@ -42,14 +46,14 @@ TRUSTED_EXTRA = [
 
 def cases(rng, tier):
     S.reset_work()
-    cs = ([json.loads(json.dumps(c)) for c in S.CORPUS] + S.zoo_cases(rng, tier)
+    cs = ([json.loads(json.dumps(c)) for c in S.CORPUS] + S.zoo_cases(rng, tier) + S.sig_cases(rng, tier)
           + S.gen_cases(rng, tier, 450 if tier == "quick" else 6000))
     S.prepare(cs)
     return cs
 
 
 def search_cases(rng, tier):
-    cs = S.zoo_cases(rng, tier) + S.gen_cases(rng, "thorough", 150)
+    cs = S.zoo_cases(rng, tier) + S.sig_cases(rng, tier) + S.gen_cases(rng, "thorough", 150)
     S.prepare(cs)
     return cs
 
@@ -89,6 +93,9 @@ def judge(case, impl, model):
             fails.append(("generator-raises:import-name-clash",
                           f"create_stub_for_file raised {impl['gen_err']} (module does `import {imported[0]}` and a field's "
                           "python type has the module's name, e.g. datetime.datetime / DateTime)"))
+        elif case.get("sig_site"):
+            fails.append((f"generator-raises:signature:{case['sig_site']}:{case['sig_default']}",
+                          f"create_stub_for_file raised {impl['gen_err']} (site {case['sig_site']}, default kind {case['sig_default']})"))
         elif case.get("zoo"):
             fails.append((f"generator-raises:field-kind:{case['zoo']}",
                           f"create_stub_for_file raised {impl['gen_err']} for a module with a {case['zoo_pos']} {case['zoo']} field"))
@@ -107,6 +114,10 @@ def judge(case, impl, model):
         msgs.append(f"extra imports: model renders {model.get('imports')} real {ex}")
     if "syntax_err" in impl:
         se = impl["syntax_err"]
+        if case.get("sig_site"):
+            fails.append((f"unparsable-stub:signature:{case['sig_site']}:{case['sig_default']}",
+                          f"generated .pyi does not parse: {se['msg']} at `{se['line']}`"))
+            return _m(msgs), fails
         fails.append(("unparsable-stub:other", f"generated .pyi does not parse: {se['msg']} at `{se['line']}`"))
         return _m(msgs), fails
     if "compile_err" in impl:
@@ -252,6 +263,43 @@ def judge(case, impl, model):
                     fails.append(("inherited-additional-properties", f"{name}.{mname}: **kw although unknown keywords are rejected"))
                 else:
                     fails.append((f"kw-mismatch:{mname}", f"{name}: stub **kw={h['kw']}, class admits additional properties={admits}"))
+    # ---- every function / method signature: same parameter names and kinds as inspect.signature
+    site_of = {}
+    for it in case["mod"]["items"]:
+        for owner, name, shape in it.get("expect", []) if it["kind"] == "raw" else []:
+            site_of[f"{owner or ''}.{name}"] = f"{case.get('sig_site')}:{shape}:{case.get('sig_default')}"
+        for cn in it.get("classes", []) if it["kind"] == "raw" else []:
+            if cn not in stub:
+                fails.append(("class-missing:other", f"class {cn} is not declared in the stub"))
+    for qn, rt in sorted(impl.get("sigs", {}).items()):
+        owner, name = qn.split(".", 1)
+        where = site_of.get(qn, "generated-item")
+        site = case.get("sig_site") or ("func" if not owner else "method")
+        if isinstance(rt, str):
+            msgs.append(f"{qn}: runtime signature unavailable: {rt}")
+            continue
+        if owner:
+            if owner not in stub:
+                continue
+            st = [m["full"] for m in stub[owner]["methods"].get(name, [])]
+        else:
+            st = impl["stub"]["funcs"].get(name, [])
+        if len(st) != 1:
+            fails.append((f"signature-missing:{site}", f"{qn} ({where}): {len(st)} definitions in the stub"))
+            continue
+        st = st[0]
+        s_nk, r_nk = [[n, k] for n, k, _ in st], [[n, k] for n, k, _ in rt]
+        if s_nk != r_nk:
+            if s_nk == [[n, "pk" if k == "po" else k] for n, k in r_nk]:
+                fails.append(("signature-kind:positional-only-marker-lost",
+                              f"{qn} ({where}): the `/` is not rendered, positional-only parameters "
+                              f"{[n for n, k in r_nk if k == 'po']} become positional-or-keyword in the stub"))
+            else:
+                fails.append((f"signature-mismatch:{site}",
+                              f"{qn} ({where}): stub parameters {s_nk} != inspect.signature {r_nk}"))
+        elif [d for _, _, d in st] != [d for _, _, d in rt]:
+            fails.append((f"signature-default-mismatch:{site}",
+                          f"{qn} ({where}): default presence differs: stub {st} runtime {rt}"))
     # ---- enums, other classes, functions
     for e, members in impl.get("enums", {}).items():
         if e not in stub:
